@@ -1,5 +1,234 @@
-import MgModel.C10.Spec
+import MgProof.C10.HeapHistory
+import MgProof.C10.HeapSortLemmas
+import MgProof.C10.MergeLemmas
+import MgProof.C10.QuickLemmas
+/-!
+# C10 — property theorems (heap order; the five sorts)
+
+Statement (properties.jsonl): the heap always yields its entries in non-decreasing key
+order: root/extract return a minimum of the current contents, and inserting, extracting or
+removing any entry (located by find, wherever it sits, including the last slot) leaves
+exactly the expected multiset of entries and a valid heap.  Each sort routine (insertion,
+shell, heap, merge, quick) returns the input pointers rearranged into non-decreasing order,
+the same multiset with nothing lost or duplicated, for every array length including 0 and 1
+and every pattern of equal keys.
+
+All theorems are about the executable models `MgModel.C10.Heap` / `MgModel.C10.Sort`, which
+mirror `muggle/c/dsaa/heap.c` / `sort.c` loop for loop and are tied to the real code by the
+exact-output correspondence of `checks/C10/check.py`.  The models are the code *with*
+`fixes/C10-heap-remove-last-slot.patch` and `fixes/C10-sort-count-zero.patch`; the unpatched
+entry points are modelled too (`removeOrig`, `mergeSortOrig`, `quickSortOrig`) and proved to
+fail exactly where the property says they must not.
+
+Quantifiers: every array (every length ≥ 0, every key pattern, `Int` keys = any consistent
+comparison callback); every heap satisfying the representation invariant (established by
+`init`, preserved by every call), every node index, every operation history.  `.ok` in a
+conclusion also says: no out-of-bounds access, no NULL key compared, no `size_t` wrap.
+-/
 namespace MgProof.C10
 open MgModel.C10
-theorem placeholder_cmp_self (a : Elem) : cmp a a = 0 := by simp [cmp]
+
+/-! ## The sorts: `Sorted (sort a) ∧ (sort a) ~ a` for every input -/
+
+/-- **C10, insertion sort.** For every array: the routine succeeds without leaving the
+array, the result is in non-decreasing key order and is a permutation of the input
+(same multiset of pointers: nothing lost, nothing duplicated). -/
+theorem insertion_sort_sorted_perm (a : Array Elem) :
+    ∃ r, insertionSort a = .ok r ∧ Sorted r.toList ∧ r.toList.Perm a.toList := by
+  obtain ⟨r, e1, e2, e3, e4, _⟩ := insertionSortAt_spec (a := a) (base := 0) (count := a.size)
+    (by omega)
+  refine ⟨r, e1, sorted_of_sortedOn ?_, e4.toList⟩
+  rw [e2]; simpa using e3
+
+/-- **C10, shell sort** (gaps `n/2, n/4, …, 1`): every pass permutes, the last pass is an
+insertion sort.  Every array, every length. -/
+theorem shell_sort_sorted_perm (a : Array Elem) :
+    ∃ r, shellSort a = .ok r ∧ Sorted r.toList ∧ r.toList.Perm a.toList := by
+  unfold shellSort
+  by_cases h : 0 < a.size / 2
+  · obtain ⟨r, e1, e2, e3, e4⟩ := shellOuter_spec a.size (a.size / 2) a h rfl
+    exact ⟨r, e1, sorted_of_sortedOn (e2 ▸ e3), e4.toList⟩
+  · unfold shellOuter
+    simp only [h, dite_false]
+    refine ⟨a, rfl, sorted_of_sortedOn ?_, List.Perm.refl _⟩
+    intro p q _ _ _
+    omega
+
+/-- **C10, heap sort** (insert all into a `muggle_heap_t`, extract all).  Every array with
+`count + 1 < 2^31` (beyond that `muggle_heap_init` refuses the capacity and the routine
+returns false by design). -/
+theorem heap_sort_sorted_perm (a : Array Elem) (h : a.size + 1 < 2147483648) :
+    ∃ r, heapSort a = .ok (some r) ∧ Sorted r.toList ∧ r.toList.Perm a.toList :=
+  heapSort_spec a h
+
+/-- **C10, merge sort** (top-down over `[0, count-1]`, `center = (l+r)/2`, `≤` takes the
+left run; patched entry point).  Every array, including lengths 0 and 1. -/
+theorem merge_sort_sorted_perm (a : Array Elem) :
+    ∃ r, mergeSort a = .ok r ∧ Sorted r.toList ∧ r.toList.Perm a.toList :=
+  mergeSort_spec a
+
+/-- **C10, quick sort** (median of three, `++i` … `--j` partition with sentinels, insertion-sort
+cutoff 10; patched entry point).  Every array: in particular both scans stay inside the
+range (the sentinel argument), the partition index stays strictly inside `(left, right)`,
+and all-equal keys at and above the cutoff are handled. -/
+theorem quick_sort_sorted_perm (a : Array Elem) :
+    ∃ r, quickSort a = .ok r ∧ Sorted r.toList ∧ r.toList.Perm a.toList :=
+  quickSort_spec a
+
+/-- the executable `isSorted` of the specification is `Sorted` -/
+theorem isSorted_iff (l : List Elem) : isSorted l = true ↔ Sorted l := by
+  unfold Sorted
+  induction l with
+  | nil => simp [isSorted]
+  | cons x l ih =>
+    cases l with
+    | nil => simp [isSorted]
+    | cons y l =>
+      simp only [isSorted, Bool.and_eq_true, decide_eq_true_eq, ih]
+      constructor
+      · rintro ⟨h1, h2⟩
+        refine List.Pairwise.cons ?_ h2
+        intro z hz
+        rcases List.mem_cons.mp hz with rfl | hz
+        · exact h1
+        · exact Int.le_trans h1 (List.rel_of_pairwise_cons h2 hz)
+      · intro h
+        exact ⟨List.rel_of_pairwise_cons h List.mem_cons_self, h.tail⟩
+
+/-- **the specification's answer is forced**: every sorted permutation of the input has
+exactly the key sequence `sortedKeys a` that the driver prints as the specification column
+(so the five theorems above determine the keys of the output; only the order of equal-key
+pointers is left to the implementation, and that is compared exactly against the model). -/
+theorem sorted_perm_keys (a : Array Elem) (r : List Elem) (hs : Sorted r)
+    (hp : r.Perm a.toList) : r.map (·.1) = sortedKeys a := by
+  unfold sortedKeys
+  have h1 : (r.map (·.1)).Pairwise (fun x y : Int => decide (x ≤ y) = true) := by
+    rw [List.pairwise_map]
+    exact hs.imp (by intro x y h; simpa using h)
+  have h2 := List.pairwise_mergeSort (le := fun x y : Int => decide (x ≤ y))
+    (fun a b c h1 h2 => by simp only [decide_eq_true_eq] at *; omega)
+    (fun a b => by simp only [Bool.or_eq_true, decide_eq_true_eq]; omega)
+    (a.toList.map (·.1))
+  have h3 : (r.map (·.1)).Perm ((a.toList.map (·.1)).mergeSort (fun x y => decide (x ≤ y))) :=
+    (hp.map _).trans (List.mergeSort_perm _ _).symm
+  exact List.Perm.eq_of_pairwise (le := fun x y : Int => decide (x ≤ y) = true)
+    (fun x y _ _ h1 h2 => by simp only [decide_eq_true_eq] at *; omega) h1 h2 h3
+
+/-! ## The heap -/
+
+/-- **C10, heap creation.** `muggle_heap_init` succeeds exactly for capacities `< 2^31`
+(`0` means 8) and yields a valid empty heap. -/
+theorem heap_init_valid {c : Nat} {h : Heap} (hi : Heap.init c = some h) :
+    HeapInv h ∧ entries h = [] :=
+  ⟨(init_inv hi).1, (init_inv hi).2.1⟩
+
+/-- **C10, insert.** On a valid heap whose size is below `2^30` (so that doubling the
+capacity is always accepted) insert succeeds, the result is a valid heap and its contents
+are exactly the old contents plus the new entry. -/
+theorem heap_insert_multiset {h : Heap} (x : Elem) (inv : HeapInv h) (hsz : h.size < 1073741824) :
+    ∃ h', h.insert x = .ok (some h') ∧ HeapInv h' ∧ (entries h').Perm (x :: entries h) := by
+  obtain ⟨h', e1, e2, e3, _⟩ := insert_spec x inv (by omega)
+  exact ⟨h', e1, e2, e3⟩
+
+/-- **C10, root.** `muggle_heap_root` returns NULL exactly on the empty heap and otherwise
+an entry of the heap whose key is a minimum of the current contents. -/
+theorem heap_root_is_min {h : Heap} (inv : HeapInv h) :
+    (entries h = [] ∧ h.root = .ok none) ∨
+    (∃ r, h.root = .ok (some r) ∧ r ∈ entries h ∧ ∀ e ∈ entries h, r.1 ≤ e.1) := by
+  rcases root_spec inv with ⟨h0, e⟩ | ⟨r, e1, _, e3, e4⟩
+  · exact Or.inl ⟨entries_nil_iff.mpr h0, e⟩
+  · exact Or.inr ⟨r, e1, e3, e4⟩
+
+/-- **C10, extract.** On a non-empty valid heap extract returns a minimum of the current
+contents, removes exactly that entry, and leaves a valid heap; on the empty heap it returns
+false. -/
+theorem heap_extract_min {h : Heap} (inv : HeapInv h) :
+    (entries h = [] ∧ h.extract = .ok none) ∨
+    (∃ r h', h.extract = .ok (some (r, h')) ∧ (∀ e ∈ entries h, r.1 ≤ e.1) ∧
+      (entries h).Perm (r :: entries h') ∧ HeapInv h') := by
+  by_cases h0 : h.size = 0
+  · exact Or.inl ⟨entries_nil_iff.mpr h0, extract_empty h0⟩
+  · obtain ⟨r, h', e1, _, e3, e4, e5, _⟩ := extract_spec inv h0
+    exact Or.inr ⟨r, h', e1, e5, e4, e3⟩
+
+/-- **C10, remove — every position, including the last slot.** For every node index
+`1 ≤ idx ≤ size` of a valid heap, `muggle_heap_remove(&nodes[idx])` (patched) succeeds,
+releases exactly the entry stored in that node, the remaining contents are exactly the old
+contents minus that entry, and the heap is valid.  Any other node pointer is refused. -/
+theorem heap_remove_any_position {h : Heap} (inv : HeapInv h) (idx : Nat) :
+    ((idx = 0 ∨ h.size < idx) ∧ h.remove idx = .ok none) ∨
+    (∃ e h', h.remove idx = .ok (some (e, h')) ∧ h.nodes[idx]? = some e ∧
+      (entries h).Perm (e :: entries h') ∧ HeapInv h') := by
+  by_cases hv : 1 ≤ idx ∧ idx ≤ h.size
+  · obtain ⟨e, h', e1, e2, e3, e4, _⟩ := remove_spec inv hv.1 hv.2
+    exact Or.inr ⟨e, h', e1, e2, e4, e3⟩
+  · have hbad : idx = 0 ∨ h.size < idx := by omega
+    exact Or.inl ⟨hbad, remove_invalid hbad⟩
+
+/-- **C10, find.** `muggle_heap_find` returns the first node (in array order) whose key
+equals the searched key — a live node — or NULL when no entry has that key. -/
+theorem heap_find_locates {h : Heap} (inv : HeapInv h) (key : Int) :
+    (∃ j e, h.find key = .ok (some j) ∧ 1 ≤ j ∧ j ≤ h.size ∧ h.nodes[j]? = some e ∧ e.1 = key) ∨
+    (h.find key = .ok none ∧ ∀ e ∈ entries h, e.1 ≠ key) := by
+  rcases find_spec inv key with ⟨j, f1, f2, f3, f4, _⟩ | ⟨f1, f2⟩
+  · have hj : j < h.nodes.size := by have := inv.size_pos; unfold Heap.size at f3; omega
+    obtain ⟨e, he⟩ := exists_getElem? hj
+    exact Or.inl ⟨j, e, f1, f2, f3, he, by rw [← K_of_getElem? he]; exact f4⟩
+  · exact Or.inr ⟨f1, f2⟩
+
+/-- **C10, all operation histories.** Starting from any valid heap (in particular a fresh
+one of any initial capacity, so growth past the initial capacity is included), every history
+of insert / extract / remove-by-key (find + remove) / remove-by-node-index calls — any
+length below `2^30`, any keys, any node indices valid or not — runs without error, keeps the
+heap valid, and every call does to the multiset of entries exactly what `SpecStep` says:
+extract hands back a minimum of the current contents, removal removes exactly the entry it
+located, nothing else changes. -/
+theorem heap_history_refines_multiset {h : Heap} (inv : HeapInv h) (ops : List HOp)
+    (hlen : h.size + ops.length < 1073741824) :
+    ∃ h' rets, hrun h ops = .ok (h', rets) ∧ HeapInv h' ∧
+      SpecRun (entries h) ops rets (entries h') :=
+  hrun_refines ops inv hlen
+
+/-- **C10, the heap yields its entries in non-decreasing key order.** Extracting until the
+heap is empty returns all entries (the same multiset) in non-decreasing key order. -/
+theorem heap_drain_sorted {h : Heap} (inv : HeapInv h) :
+    ∃ l, drain h.size h = .ok l ∧ Sorted l ∧ l.Perm (entries h) :=
+  drain_spec h.size inv (Nat.le_refl _)
+
+/-! ## The defects of the pinned tree (negation witnesses for the unpatched entry points) -/
+
+/-- **Expected-false on the unpatched code: remove of the last slot.** On *every* valid heap
+with at least two entries the unpatched `muggle_heap_remove(&nodes[size])` hands a NULL key
+to the comparison callback (`Err.null`), whereas the patched code succeeds
+(`heap_remove_any_position`).  For every other index both agree (`removeOrig_eq_remove`). -/
+theorem heap_removeOrig_last_slot_fails {h : Heap} (inv : HeapInv h) (h2 : 2 ≤ h.size) :
+    h.removeOrig h.size = .error .null ∧
+    (∀ idx, idx ≠ h.size → h.removeOrig idx = h.remove idx) :=
+  ⟨removeOrig_last_fails inv h2, fun _ hne => removeOrig_eq_remove hne⟩
+
+/-- **Expected-false on the unpatched code: `count == 0`.** The unpatched merge sort and
+quick sort read outside the (empty) array; for `2 ≤ count < 2^64` they are the patched
+routines. -/
+theorem sortsOrig_count_zero_fail :
+    mergeSortOrig #[] = .error .oob ∧ quickSortOrig #[] = .error .oob ∧
+    (∀ a : Array Elem, 2 ≤ a.size → a.size < sizeMod →
+      mergeSortOrig a = mergeSort a ∧ quickSortOrig a = quickSort a) :=
+  ⟨mergeSortOrig_empty_fails, quickSortOrig_empty_fails,
+    fun _ h1 h2 => ⟨mergeSortOrig_eq_mergeSort h1 h2, quickSortOrig_eq_quickSort h1 h2⟩⟩
+
+/-! ## Non-vacuity: the hypotheses are met by concrete, non-trivial objects -/
+
+/-- a fresh heap of capacity 1 satisfies `HeapInv`; a 4-call history (growth past the
+initial capacity, equal keys, removal of the node in the last slot) meets the hypotheses
+of `heap_history_refines_multiset` -/
+example : ∃ h, Heap.init 1 = some h ∧ HeapInv h ∧
+    h.size + [HOp.ins (5, 0), .ins (3, 1), .ins (3, 2), .rmi 3, .ext].length < 1073741824 := by
+  have hi : Heap.init 1 = some { cap := 1, nodes := #[dummy] } := by
+    simp [Heap.init, capValid]
+  exact ⟨_, hi, (init_inv hi).1, by decide⟩
+
+/-- the sort theorems have no hypotheses besides the size bound of heap sort; a concrete
+array with equal keys satisfies it -/
+example : (#[(2, 0), (1, 1), (2, 2), (1, 3)] : Array Elem).size + 1 < 2147483648 := by decide
+
 end MgProof.C10
